@@ -98,9 +98,19 @@ def run(tier):
         scs.append(dict(sid="g%d[%s|slack=%s|off=%s]" % (n, gid(g), ",".join("%d%s" % (x["bus"], "" if x["u"] else "x") for x in s),
                                                           ".".join(map(str, off)) or "-"),
                         n=n, br=br, slacks=s, off=off, shuntsw=[rnd.randint(1, n)], via="alter", idx_kind=rnd.choice(["int", "str"])))
+    # histories of connection states on one System (ieee14: Line positions; bus 14 has lines 12 and 15 (0-based), bus 12: 8 and 14 ...)
+    seqs = []
+    cand = [[12, 15], [8, 14], [9, 11], [16], [2, 5], []]
+    for k in range(6 if quick else 40):
+        steps = [[]] + [rnd.choice(cand) for _ in range(3)] + [[]]
+        if k == 0:
+            steps = [[], [12, 15], [], [8, 14], [12, 15], []]        # same number of islanded buses, different bus
+        seqs.append(dict(kind="seq", sid="seq[ieee14|%s]" % ">".join(".".join(map(str, s)) or "-" for s in steps),
+                         case="ieee14/ieee14.json", steps=steps, n=0, br=[], slacks=[], off=[]))
+    scs += seqs
     for i, sc in enumerate(scs):
         sc["tid"] = i + 1
-    res = run_tasks("vh.conndrv:run_graph", scs, nproc=NCPU, timeout=300)
+    res = run_tasks("vh.checks.c12:task", scs, nproc=NCPU, timeout=600)
     traces = [x["result"] for x in res if x["status"] == "ok" and x["result"]["ev"]]
     verdicts, tl = tracecheck.validate(traces, "Trace_Connectivity")
     for t in tl:
@@ -123,7 +133,7 @@ def run(tier):
             continue
         rep.traces += 1
         evs = x["result"]["ev"]
-        if any(e["e"] == "conn" and (len(e["island_sets"]) > 1 or e["islanded"]) for e in evs) or sc["off"]:
+        if any(e["e"] == "conn" and (len(e["island_sets"]) > 1 or e["islanded"]) for e in evs) or sc["off"] or sc.get("kind") == "seq":
             rep.nontriv(sc["sid"])
         for e in evs:
             if e["e"] == "conn_raised":
@@ -142,6 +152,11 @@ def run(tier):
                 "5-6 bus graphs seeded random; non-trivial = more than one island, an isolated bus or a bus switched off" %
                 ("seeded sample of 260" if quick else "exhaustive"))
     return rep.finish()
+
+
+def task(sc):
+    from .. import conndrv
+    return conndrv.run_sequence(sc) if sc.get("kind") == "seq" else conndrv.run_graph(sc)
 
 
 def replay(path):
